@@ -6,7 +6,13 @@ package grpc
 // (both decompressor APIs, real gzip of both APIs and a counting toy run-length codec) over
 // an in-memory streamReader fed with arbitrary chunks (DATA frames).
 //
-//	cfg [limit, isServer, dcKind, compKind, enc]
+//	cfg [limit, isServer, dcKind, compKind, enc] or [limit, 0, 0, compKind, enc, 1]
+//	    a sixth element 1 selects the end-to-end path: a raw HTTP/2 server (x/net/http2 Framer
+//	    over bufconn) answers a real ClientConn's stream with response headers (grpc-encoding:
+//	    enc 0 absent, 1 "identity", 2 "gzip" / "x-verif" (registered toy) / "x-nope" for
+//	    compKind 1 / 2 / 0), one DATA frame per chunk op, and trailers with grpc-status 0; each
+//	    [2] is ClientStream.RecvMsg with MaxCallRecvMsgSize(limit) until the first non-message
+//	    result (later [2] ops observe nothing); pulled and pos are reported as 0.
 //	    dcKind   legacy Decompressor: 0 nil, 1 NewGZIPDecompressor(), 2 toy Decompressor
 //	    compKind encoding.Compressor: 0 nil, 1 the registered gzip compressor (its reader is
 //	             wrapped to count the bytes it hands out), 2 toy compressor
@@ -25,17 +31,24 @@ package grpc
 import (
 	"bytes"
 	stdgzip "compress/gzip"
+	"context"
 	"errors"
 	"io"
 	"math"
+	"net"
 	"strconv"
 	"strings"
 	"testing"
+	"time"
 
+	"golang.org/x/net/http2"
+	"golang.org/x/net/http2/hpack"
+	"google.golang.org/grpc/credentials/insecure"
 	"google.golang.org/grpc/encoding"
 	_ "google.golang.org/grpc/encoding/gzip"
 	"google.golang.org/grpc/mem"
 	"google.golang.org/grpc/status"
+	"google.golang.org/grpc/test/bufconn"
 )
 
 // ---- the stream reader ----
@@ -291,8 +304,171 @@ func vFramingCksum(b []byte) int64 {
 
 // ---- exec ----
 
+// ---- end-to-end path: raw HTTP/2 server, real client transport ----
+
+var vFramingDummyPulled int
+
+func init() {
+	encoding.RegisterCompressor(vFramingToyComp{pulled: &vFramingDummyPulled})
+}
+
+type vFramingCodec struct{}
+
+func (vFramingCodec) Marshal(v any) ([]byte, error) {
+	b, ok := v.(*[]byte)
+	if !ok {
+		return nil, errors.New("verif codec: want *[]byte")
+	}
+	return *b, nil
+}
+func (vFramingCodec) Unmarshal(data []byte, v any) error {
+	b, ok := v.(*[]byte)
+	if !ok {
+		return errors.New("verif codec: want *[]byte")
+	}
+	*b = append([]byte(nil), data...)
+	return nil
+}
+func (vFramingCodec) Name() string { return "x-vfraw" }
+
+// serves one connection: answers stream 1 with headers, the chunks as DATA frames and
+// trailers (grpc-status 0), acknowledges SETTINGS and PING, until the peer goes away
+func vFramingRawServe(c net.Conn, encName string, chunks [][]byte) {
+	defer c.Close()
+	preface := make([]byte, len(http2.ClientPreface))
+	if _, err := io.ReadFull(c, preface); err != nil {
+		return
+	}
+	fr := http2.NewFramer(c, c)
+	if err := fr.WriteSettings(); err != nil {
+		return
+	}
+	var hb bytes.Buffer
+	henc := hpack.NewEncoder(&hb)
+	answered := false
+	for {
+		f, err := fr.ReadFrame()
+		if err != nil {
+			return
+		}
+		switch f := f.(type) {
+		case *http2.SettingsFrame:
+			if !f.IsAck() {
+				fr.WriteSettingsAck()
+			}
+		case *http2.PingFrame:
+			if !f.IsAck() {
+				fr.WritePing(true, f.Data)
+			}
+		case *http2.HeadersFrame:
+			if answered || !f.HeadersEnded() {
+				continue
+			}
+			answered = true
+			id := f.StreamID
+			hb.Reset()
+			henc.WriteField(hpack.HeaderField{Name: ":status", Value: "200"})
+			henc.WriteField(hpack.HeaderField{Name: "content-type", Value: "application/grpc"})
+			if encName != "" {
+				henc.WriteField(hpack.HeaderField{Name: "grpc-encoding", Value: encName})
+			}
+			fr.WriteHeaders(http2.HeadersFrameParam{StreamID: id, BlockFragment: hb.Bytes(), EndHeaders: true})
+			for _, ch := range chunks {
+				fr.WriteData(id, false, ch)
+			}
+			hb.Reset()
+			henc.WriteField(hpack.HeaderField{Name: "grpc-status", Value: "0"})
+			fr.WriteHeaders(http2.HeadersFrameParam{StreamID: id, BlockFragment: hb.Bytes(), EndHeaders: true, EndStream: true})
+		}
+	}
+}
+
+func vFramingExecE2E(cfg []int64, ops [][]int64) ([][]int64, bool, []string) {
+	limit := int(cfg[0])
+	encName := ""
+	switch cfg[4] % 3 {
+	case 1:
+		encName = "identity"
+	case 2:
+		encName = []string{"x-nope", "gzip", "x-verif"}[min(int(cfg[3]), 2)]
+	}
+	var chunks [][]byte
+	for _, op := range ops {
+		if len(op) > 0 && op[0] == 1 {
+			b, _ := vGetBytes(op[1:])
+			chunks = append(chunks, b)
+		}
+	}
+	lis := bufconn.Listen(1 << 16)
+	go func() {
+		for {
+			c, err := lis.Accept()
+			if err != nil {
+				return
+			}
+			go vFramingRawServe(c, encName, chunks)
+		}
+	}()
+	defer lis.Close()
+	obs := make([][]int64, len(ops))
+	for i := range obs {
+		obs[i] = []int64{}
+	}
+	tagset := map[string]bool{"e2e": true}
+	cc, err := NewClient("passthrough:///vframing", WithTransportCredentials(insecure.NewCredentials()),
+		WithContextDialer(func(ctx context.Context, _ string) (net.Conn, error) { return lis.DialContext(ctx) }))
+	if err != nil {
+		return obs, false, nil
+	}
+	defer cc.Close()
+	ctx, cancel := context.WithTimeout(context.Background(), 10*time.Second)
+	defer cancel()
+	sawMsg, sawErr := false, false
+	var cs ClientStream
+	stopped := false
+	for i, op := range ops {
+		if len(op) == 0 || op[0] != 2 || stopped {
+			continue
+		}
+		if cs == nil {
+			cs, err = cc.NewStream(ctx, &StreamDesc{ServerStreams: true, ClientStreams: true}, "/v.F/S",
+				MaxCallRecvMsgSize(limit), ForceCodec(vFramingCodec{}))
+			if err != nil {
+				obs[i] = []int64{3, int64(status.Code(err)), 0, 0, 0, 0}
+				stopped = true
+				continue
+			}
+		}
+		var b []byte
+		err := cs.RecvMsg(&b)
+		switch {
+		case err == nil:
+			obs[i] = []int64{0, 0, int64(len(b)), vFramingCksum(b), 0, 0}
+			sawMsg = true
+			tagset["msg"] = true
+		case err == io.EOF:
+			obs[i] = []int64{1, 0, 0, 0, 0, 0}
+			stopped = true
+			tagset["eof"] = true
+		default:
+			code := int64(status.Code(err))
+			obs[i] = []int64{3, code, 0, 0, 0, 0}
+			stopped, sawErr = true, true
+			tagset["status-"+strconv.Itoa(int(code))] = true
+		}
+	}
+	var tags []string
+	for k := range tagset {
+		tags = append(tags, k)
+	}
+	return obs, sawMsg && sawErr, tags
+}
+
 func vFramingExec(cfg []int64, ops [][]int64) ([][]int64, bool, []string) {
-	if len(cfg) != 5 {
+	if len(cfg) == 6 && cfg[5] == 1 {
+		return vFramingExecE2E(cfg, ops)
+	}
+	if len(cfg) != 5 && len(cfg) != 6 {
 		return nil, false, nil
 	}
 	limit := int(cfg[0])
@@ -661,7 +837,56 @@ func vFramingBuild(r *vRand, cfg []int64, frames [][]byte, mode int, cut int, ea
 	return ops
 }
 
+// the end-to-end variant of a generated case: client side, the codec moves to compKind
+func vFramingToE2E(cfg []int64) []int64 {
+	comp := cfg[3]
+	if cfg[2] != 0 {
+		comp = cfg[2]
+	}
+	return []int64{cfg[0], 0, 0, comp, cfg[4], 1}
+}
+
 func vFramingGen(r *vRand, tier string, idx int) ([]int64, [][]int64) {
+	if idx >= 42 && idx < 54 {
+		// end-to-end boundary cases: codec none/gzip/toy x encoding named/absent, the fixed
+		// boundary stream, whole and cut inside a header / inside a payload
+		k := idx - 42
+		cfg := []int64{40, 0, 0, int64(k % 3), int64(2 * ((k / 3) % 2)), 1}
+		limit := 40
+		z := func(n int) []byte { return make([]byte, n) }
+		cmp := func(n int) []byte { return []byte{byte(n / 2), 9, byte(n - n/2), 9} }
+		if cfg[3] == 1 {
+			cmp = func(n int) []byte { return vFramingGzip(z(n)) }
+		}
+		frames := [][]byte{
+			vFramingFrame(0, uint32(limit), z(limit)),
+			vFramingFrame(0, 0, nil),
+			vFramingFrame(1, uint32(len(cmp(limit))), cmp(limit)),
+			vFramingFrame(0, 7, z(7)),
+		}
+		cut := -1
+		if k >= 6 {
+			// k 6-8: the stream ends 1-4 bytes into the third header; k 9-11: inside a payload
+			cut = 45 + 5 + 1 + k%4
+			if k >= 9 {
+				cut = 45 + 5 + 5 + 2 + k%3
+			}
+			if cfg[4] == 0 {
+				cfg[4] = 2
+			}
+			frames[2], frames[3] = vFramingFrame(0, 9, z(9)), vFramingFrame(0, 3, z(3))
+		} else {
+			switch k / 3 {
+			case 1:
+				frames = append(frames, vFramingFrame(1, uint32(len(cmp(limit+1))), cmp(limit+1)))
+			default:
+				frames = append(frames, vFramingFrame(0, uint32(limit+1), z(limit+1)))
+			}
+		}
+		if ops := vFramingBuild(r, cfg, frames, 3, cut, false); ops != nil {
+			return cfg, ops
+		}
+	}
 	if idx < 42 {
 		// every (isServer, decompressor pair, encoding) with a fixed boundary stream
 		pair := vFramingPairs[idx%7]
@@ -700,6 +925,9 @@ func vFramingGen(r *vRand, tier string, idx int) ([]int64, [][]int64) {
 			enc = int64(r.Intn(2))
 		}
 		cfg := []int64{limit, int64(r.Intn(2)), pair[0], pair[1], enc}
+		if idx%4 == 3 {
+			cfg = vFramingToE2E(cfg)
+		}
 		n := 1 + r.Intn(7)
 		var frames [][]byte
 		total := 0
@@ -726,5 +954,5 @@ func vFramingGen(r *vRand, tier string, idx int) ([]int64, [][]int64) {
 }
 
 func TestVerif_Framing(t *testing.T) {
-	vRunDriver(t, "Framing", 70, 1200, vFramingGen, vFramingExec)
+	vRunDriver(t, "Framing", 84, 1200, vFramingGen, vFramingExec)
 }
